@@ -271,7 +271,9 @@ Print Assumptions C17_short_lines_pass_length_scan.
 (* THE WHOLE DOCUMENT.  Domain caps_ok: the composed statement's (basic set, <= 15 rows, cues ordered / not overlapping /
    spaced by their transmission time, start <= end) plus: every cue has a word (a whitespace-only cue is the known
    finding C17-whitespace-only-cue-not-reread) and ends below 100 h (two-digit hours).
-   C17_reader_store_on_written_document: the decoder never raises; the caption store it ends with holds exactly one
+   C17_reader_store_on_written_document (audit w7: the statement is existential - THERE IS a store stf whose finish_read is
+   the reader model's answer; the proof takes the decoder's final store `closed st' q' 0`, the statement does not pin it;
+   the answer itself is pinned by C17_reread_store below): the decoder does not raise; a caption store holds exactly one
    caption per cue, in order, with the cue's words and a start within three frames; every stored caption has lines of at
    most 32 characters (each decoded line is one written row, stripped) and is displayed for at least two frames or not
    at all (round 4: the closing EDM comes at least two frames after the EOC, by C17_visible_within_3_frames, start <= end
